@@ -49,16 +49,20 @@ impl<'a> RecordView<'a> {
         u16::from_le_bytes([self.data[0], self.data[1]])
     }
 
+    /// The null bitmap, or as much of it as the record holds (a truncated record).
     pub fn null_bitmap(&self) -> &'a [u8] {
         let bitmap_size = Schema::null_bitmap_size(self.schema.column_count());
-        &self.data[2..2 + bitmap_size]
+        let end = (2 + bitmap_size).min(self.data.len());
+        &self.data[2..end]
     }
 
+    /// The offset table, or as much of it as the record holds (a truncated record).
     pub fn offset_table(&self) -> &'a [u8] {
         let bitmap_size = Schema::null_bitmap_size(self.schema.column_count());
-        let offset_table_start = 2 + bitmap_size;
+        let offset_table_start = (2 + bitmap_size).min(self.data.len());
         let offset_table_bytes = self.schema.var_column_count() * 2;
-        &self.data[offset_table_start..offset_table_start + offset_table_bytes]
+        let end = (offset_table_start + offset_table_bytes).min(self.data.len());
+        &self.data[offset_table_start..end]
     }
 
     pub fn data_offset(&self) -> usize {
@@ -69,7 +73,11 @@ impl<'a> RecordView<'a> {
         let byte_idx = col_idx / 8;
         let bit_idx = col_idx % 8;
         let bitmap = self.null_bitmap();
-        (bitmap[byte_idx] & (1 << bit_idx)) != 0
+        // a column whose bitmap byte is missing from the record has no value
+        bitmap
+            .get(byte_idx)
+            .map(|b| (b & (1 << bit_idx)) != 0)
+            .unwrap_or(true)
     }
 
     pub fn get_fixed_col_offset(&self, col_idx: usize) -> usize {
@@ -85,19 +93,39 @@ impl<'a> RecordView<'a> {
         let offset_table = self.offset_table();
         let var_data_start = self.data_offset() + self.schema.total_fixed_size();
 
-        let end_offset =
-            u16::from_le_bytes([offset_table[var_idx * 2], offset_table[var_idx * 2 + 1]]) as usize;
+        let read_offset = |idx: usize| -> Result<usize> {
+            match offset_table.get(idx * 2..idx * 2 + 2) {
+                Some(b) => Ok(u16::from_le_bytes([b[0], b[1]]) as usize),
+                None => Err(eyre::eyre!(
+                    "record too short for the offset of variable column {}",
+                    col_idx
+                )),
+            }
+        };
 
+        let end_offset = read_offset(var_idx)?;
         let start_offset = if var_idx == 0 {
             0
         } else {
-            u16::from_le_bytes([
-                offset_table[(var_idx - 1) * 2],
-                offset_table[(var_idx - 1) * 2 + 1],
-            ]) as usize
+            read_offset(var_idx - 1)?
         };
 
         Ok((var_data_start + start_offset, var_data_start + end_offset))
+    }
+
+    /// Bytes of a variable-width column. The bounds come from the record's own offset
+    /// table, so they are checked against the record before slicing.
+    fn var_bytes(&self, col_idx: usize) -> Result<&'a [u8]> {
+        let (start, end) = self.get_var_bounds(col_idx)?;
+        self.data.get(start..end).ok_or_else(|| {
+            eyre::eyre!(
+                "variable column {} spans bytes {}..{} of a {}-byte record",
+                col_idx,
+                start,
+                end,
+                self.data.len()
+            )
+        })
     }
 
     pub fn get_bool(&self, col_idx: usize) -> Result<bool> {
@@ -184,8 +212,7 @@ impl<'a> RecordView<'a> {
     }
 
     pub fn get_text(&self, col_idx: usize) -> Result<&'a str> {
-        let (start, end) = self.get_var_bounds(col_idx)?;
-        let bytes = &self.data[start..end];
+        let bytes = self.var_bytes(col_idx)?;
         std::str::from_utf8(bytes)
             .map_err(|e| eyre::eyre!("invalid UTF-8 in text column {}: {}", col_idx, e))
     }
@@ -199,18 +226,15 @@ impl<'a> RecordView<'a> {
     }
 
     pub fn get_blob(&self, col_idx: usize) -> Result<&'a [u8]> {
-        let (start, end) = self.get_var_bounds(col_idx)?;
-        Ok(&self.data[start..end])
+        self.var_bytes(col_idx)
     }
 
     pub fn get_var_raw(&self, col_idx: usize) -> Result<&'a [u8]> {
-        let (start, end) = self.get_var_bounds(col_idx)?;
-        Ok(&self.data[start..end])
+        self.var_bytes(col_idx)
     }
 
     pub fn get_vector(&self, col_idx: usize) -> Result<&'a [f32]> {
-        let (start, end) = self.get_var_bounds(col_idx)?;
-        let bytes = &self.data[start..end];
+        let bytes = self.var_bytes(col_idx)?;
         if bytes.len() < 4 {
             return Err(eyre::eyre!(
                 "vector data too short at col {}: {} bytes",
@@ -259,8 +283,7 @@ impl<'a> RecordView<'a> {
     }
 
     pub fn get_vector_copy(&self, col_idx: usize) -> Result<Vec<f32>> {
-        let (start, end) = self.get_var_bounds(col_idx)?;
-        let bytes = &self.data[start..end];
+        let bytes = self.var_bytes(col_idx)?;
         if bytes.len() < 4 {
             return Err(eyre::eyre!(
                 "vector data too short at col {}: {} bytes",
@@ -301,8 +324,7 @@ impl<'a> RecordView<'a> {
     }
 
     pub fn get_jsonb(&self, col_idx: usize) -> Result<JsonbView<'a>> {
-        let (start, end) = self.get_var_bounds(col_idx)?;
-        let bytes = &self.data[start..end];
+        let bytes = self.var_bytes(col_idx)?;
         JsonbView::new(bytes)
     }
 
@@ -719,8 +741,7 @@ impl<'a> RecordView<'a> {
     }
 
     pub fn get_decimal(&self, col_idx: usize) -> Result<DecimalView<'a>> {
-        let (start, end) = self.get_var_bounds(col_idx)?;
-        Ok(DecimalView::new(&self.data[start..end]))
+        Ok(DecimalView::new(self.var_bytes(col_idx)?))
     }
 
     pub fn get_decimal_opt(&self, col_idx: usize) -> Result<Option<DecimalView<'a>>> {
@@ -731,8 +752,7 @@ impl<'a> RecordView<'a> {
     }
 
     pub fn get_composite(&self, col_idx: usize, field_count: usize) -> Result<CompositeView<'a>> {
-        let (start, end) = self.get_var_bounds(col_idx)?;
-        let bytes = &self.data[start..end];
+        let bytes = self.var_bytes(col_idx)?;
         CompositeView::new(bytes, field_count)
     }
 
@@ -748,8 +768,7 @@ impl<'a> RecordView<'a> {
     }
 
     pub fn get_array(&self, col_idx: usize) -> Result<ArrayView<'a>> {
-        let (start, end) = self.get_var_bounds(col_idx)?;
-        let bytes = &self.data[start..end];
+        let bytes = self.var_bytes(col_idx)?;
         ArrayView::new(bytes)
     }
 
